@@ -13,8 +13,8 @@ if __name__ == "__main__":  # the `python -O` child of probe_cases: needs harnes
 from common import bits_str, hex_str, impl_error
 
 PROP = "C04"
-MODULES = ["C04", "C04a", "C04b", "C04c", "C04p"]
-GEN = ["Codes", "Crc", "Integrity"]
+MODULES = ["C04", "C04a", "C04b", "C04c", "C04p", "C04t"]
+GEN = ["Codes", "Crc", "Integrity", "Elements", "TranslPduSmall"]
 ANCHORS = [
     "okdmr/dmrlib/etsi/crc",
     "okdmr/dmrlib/etsi/fec/golay_20_8_7.py",
@@ -1911,6 +1911,142 @@ def hrnp_burst_cases(ctx, L, valid):
         ctx.correspond("hrnp.bursts", pairs)
 
 
+def run_transl(ctx):
+    """Differential validation of the source translator for bit-field PDU code (tools/py2lean_bits.py on top of tools/py2lean.py)
+    and of its prelude (Model/PyBits.lean, Model/Py.lean), trusted base of Props/C04t: the definitions TRANSLATED from the source of
+    SlotType / EmbeddedSignalling / ShortLinkControl / ServiceOptions (`Gen/TranslPduSmall.lean`, driver operations `t.ps.*`, call
+    boundary instantiated with the model's Golay / QR / CRC-8) against the real classes — every attribute of the object from_bits
+    returns, its as_bits(), or the exception class — on all-zero / all-one / code words / zero-check-field words / single-bit
+    neighbours / random words of the right and of wrong lengths; and the prelude's bitarray primitives one by one against
+    bitarray.util (`t.ps.prim.*`).  A difference is a translator or prelude bug, never a finding about /repo."""
+    if ctx.search_only or not ctx.driver_ok:
+        return
+    import enum as _enum
+    from okdmr.dmrlib.etsi.layer2.pdu.slot_type import SlotType as _Slot
+    from okdmr.dmrlib.etsi.layer2.pdu.embedded_signalling import EmbeddedSignalling as _Emb
+    from okdmr.dmrlib.etsi.layer2.pdu.short_link_control import ShortLinkControl as _Slc
+    from okdmr.dmrlib.etsi.layer3.elements.service_options import ServiceOptions as _So
+    rng = ctx.rng
+
+    def bs(b):
+        return b.to01() if len(b) else "-"
+
+    def val(v):
+        if v is None:
+            return "None"
+        if isinstance(v, bool):
+            return "1" if v else "0"
+        if isinstance(v, _enum.Enum):
+            return str(v.value)
+        if isinstance(v, bitarray):
+            return bs(v)
+        if isinstance(v, int):
+            return str(v)
+        return "?" + type(v).__name__
+
+    def obj(o):
+        return ";".join(f"{k}={val(v)}" for k, v in vars(o).items())
+
+    def parse(cls, word):
+        try:
+            o = cls.from_bits(bitarray(word))
+        except Exception as e:  # noqa
+            return impl_error(e)
+        try:
+            enc = bs(o.as_bits())
+        except Exception as e:  # noqa
+            enc = impl_error(e)
+        return obj(o) + " " + enc
+
+    def call(fn, *a):
+        try:
+            return fn(*a)
+        except Exception as e:  # noqa
+            return impl_error(e)
+
+    def rnd(n):
+        return "".join(rng.choice("01") for _ in range(n))
+
+    def words(n, check_from, count):
+        out = ["0" * n, "1" * n, "0" * (n - 1) + "1", "1" + "0" * (n - 1)]
+        for _ in range(count):
+            w = rnd(n)
+            out.append(w)
+            out.append(w[:check_from] + "0" * (n - check_from))   # the in-band sentinel: regenerated check field
+            i = rng.randrange(n)
+            out.append(w[:i] + ("1" if w[i] == "0" else "0") + w[i + 1:])
+        for k in (0, 1, n - 1, n + 1, n + 8, 2 * n):
+            out.append(rnd(k))
+        return out
+
+    pairs = []
+    n_slot = ctx.budget(300, 6000)
+    slot_words = words(20, 8, n_slot)
+    for cc in range(16):            # every colour code x data type built by the library (valid code words)
+        for dt in range(16):
+            w = call(lambda: bs(_Slot(cc, dt).as_bits()))
+            if not w.startswith("ERR"):
+                slot_words.append(w)
+    for w in slot_words:
+        pairs.append(("t.ps.slot " + (w or "-"), parse(_Slot, w)))
+    emb_words = words(16, 7, ctx.budget(300, 6000))
+    for cc in range(16):
+        for pi in range(2):
+            for lc in range(4):
+                emb_words.append(bs(_Emb(cc, pi, lc).as_bits()))
+    for w in emb_words:
+        pairs.append(("t.ps.emb " + (w or "-"), parse(_Emb, w)))
+    slc_words = words(36, 28, ctx.budget(300, 6000))
+    for op in range(16):            # every SLCO value x a few bodies; null / activity with every activity id
+        for _ in range(3):
+            slc_words.append(format(op, "04b") + rnd(32))
+            slc_words.append(format(op, "04b") + rnd(24) + "0" * 8)
+    for t1 in range(16):
+        for t2 in range(16):
+            slc_words.append("0001" + format(t1, "04b") + format(t2, "04b") + rnd(16) + rng.choice(("0" * 8, rnd(8))))
+    slc_words += [rnd(36) + rnd(k) for k in (1, 2, 8, 36)]
+    for w in slc_words:
+        pairs.append(("t.ps.slc " + (w or "-"), parse(_Slc, w)))
+    for v in range(256):
+        w = format(v, "08b")
+        pairs.append(("t.ps.so " + w, parse(_So, w)))
+    for k in (0, 1, 7, 9, 16):
+        w = rnd(k)
+        pairs.append(("t.ps.so " + (w or "-"), parse(_So, w)))
+    # constructors with arbitrary integers (asserts, Enum calls, OverflowError of int2ba)
+    ints = [-1, 0, 1, 2, 3, 4, 11, 12, 13, 15, 16, 255, 511, 512, 4095, 4096]
+    for _ in range(ctx.budget(300, 3000)):
+        cc, dt, par = rng.choice(ints), rng.choice(ints), rng.choice(ints + [rng.randrange(4096)])
+        if not (0 <= dt < 16):
+            continue                # Enum call outside the extracted graph: outside the translated domain (UNSUPPORTED)
+        pairs.append((f"t.ps.slotinit {cc} {dt} {par}", call(lambda: obj(_Slot(cc, dt, par)))))
+    for _ in range(ctx.budget(300, 3000)):
+        cc, pi, lc, par = rng.choice(ints), rng.choice((0, 1, 0, 1, 2, -1)), rng.choice((0, 1, 2, 3, 4, -1)), rng.choice(ints + [rng.randrange(512)])
+        if not (0 <= pi < 2 and 0 <= lc < 4):
+            if 0 <= cc <= 15:
+                continue            # the asserts on LCSS / PI fail first only if the colour code passes; keep the graph's domain
+        pairs.append((f"t.ps.embinit {cc} {pi} {lc} {par}", call(lambda: obj(_Emb(cc, pi, lc, par)))))
+    ctx.count("transl:from_bits", len(slot_words) + len(emb_words) + len(slc_words) + 261)
+    # the prelude's primitives against bitarray
+    prim = []
+    for x in ints + [2 ** 16, 2 ** 64 - 1, 2 ** 64]:
+        for n in (-1, 0, 1, 2, 4, 8, 9, 12, 16, 64):
+            prim.append((f"t.ps.prim.int2ba {x} {n}", call(lambda: bs(int2ba(x, length=n)))))
+            prim.append((f"t.ps.prim.int2bale {x} {n}", call(lambda: bs(int2ba(x, length=n, endian="little")))))
+    for _ in range(ctx.budget(200, 2000)):
+        w = rnd(rng.choice((0, 1, 2, 5, 8, 20, 36, 96)))
+        prim.append(("t.ps.prim.ba2int " + (w or "-"), call(lambda: str(ba2int(bitarray(w))))))
+        i = rng.choice((None, None, -100, -3, -1, 0, 1, 4, 8, 28, 36, 100))
+        j = rng.choice((None, None, -100, -3, -1, 0, 1, 4, 8, 28, 36, 100))
+        prim.append((f"t.ps.prim.slice {w or '-'} {'-' if i is None else i} {'-' if j is None else j}", bs(bitarray(w)[i:j])))
+        k = rng.choice((-100, -37, -2, -1, 0, 1, 4, 7, 35, 36, 100))
+        prim.append((f"t.ps.prim.getbit {w or '-'} {k}", call(lambda: str(bitarray(w)[k]))))
+        xs = [rng.choice((0, 1, 0, 1, 0, 1, 2, -1)) for _ in range(rng.randrange(1, 8))]
+        prim.append(("t.ps.prim.bitarray " + " ".join(map(str, xs)), call(lambda: bs(bitarray(xs)))))
+    ctx.count("transl:prelude-primitives", len(prim))
+    ctx.correspond("transl", pairs + prim)
+
+
 def run(ctx):
     ctx.rule = (
         "slot type / EMB: received words = all code words, all zero-parity words, single-bit neighbours of code words and 10^4 random "
@@ -1954,7 +2090,13 @@ def run(ctx):
         "hand-written model of the check logic (Model/Integrity.lean on top of Model/Codes.lean and Model/Crc*.lean) tied to the code by this run's correspondence",
         "inputs of the model taken from the real code: whether the field decoder of a data header raises (field codec = C03), whether the HDAP stage of an HRNP packet raises (C12)",
         "bitarray / numpy trusted as the substrate",
+        "tools/py2lean.py + tools/py2lean_bits.py + tools/extract_transl_pdu.py (source translator: Gen/TranslPduSmall.lean from inspect.getsource of SlotType / EmbeddedSignalling / "
+        "ShortLinkControl / ServiceOptions and the SLCOs / ActivityID element helpers) and lean/DmrVerif/Model/Py.lean, Model/PyBits.lean (semantics of the Python subset, bitarray "
+        "primitives); validated on every run by the differential operations t.ps.* (run_transl); Props/C04t proves the translated definitions equal to Model/Integrity's "
+        "slotDec / embDec / slcDec (and Model/PduCsbk's ServiceOptions) for all bit strings; the call boundary (Golay / QR generate and check, numpy_array_to_int, CRC8.calculate / "
+        "check are parameters of the translated definitions, instantiated with the model's functions) is trusted",
     ]
+    run_transl(ctx)
     ctx.assumptions += [
         "the CRC detection theorems assume a received check field that is not all-zero (the constructors treat 0 as 'please generate': known finding zero-check-field; for a confirmed last block also a non-zero CRC-32 field, sent and received); the oracle does not",
         "bursts are bursts of the order in which the CRC covers the bits: for the short LC the 8 CRC bits are sent least significant bit first, for a confirmed block the order is data, (CRC-32,) serial number, CRC-9 (sent LSB first); a burst of the PDU bit order that straddles these field boundaries is not a burst of the code and carries no guarantee (ETSI layout, not a library matter)",
